@@ -162,8 +162,10 @@ def run(ctx):
     for _ in range(3000 if ctx.thorough else 400):
         enc = r.choice(["utf-8", "cp1251", "utf-16", "utf-16-le", "utf-16-be", "utf-32", "utf-32-be", "ascii"])
         recs = []
+        wide = enc not in ("ascii",) and r.random() < 0.5
+        alpha_ = "abcXYZ019 .-" + ("\u00b5\u00b0\u00b2\u00e9" if wide and enc != "cp1251" else "") + ("\u0416\u044f" if wide and enc in ("cp1251", "utf-8", "utf-16", "utf-16-le", "utf-16-be", "utf-32", "utf-32-be") else "")
         for _k in range(r.choice([1, 2, 3])):
-            recs.append([r.choice("HPORL")] + ["".join(r.choice("abcXYZ019 .-") for _ in range(r.choice([0, 1, 3, 8, 30])))
+            recs.append([r.choice("HPORL")] + ["".join(r.choice(alpha_) for _ in range(r.choice([0, 1, 3, 8, 30])))
                                                for _f in range(r.choice([1, 2, 4]))])
         seq = r.randrange(0, 17)
         try:
@@ -186,6 +188,22 @@ def run(ctx):
             continue
         oe.case(case, nontrivial=len(frames) > 1)
         oe.count(enc)
+        # record by record (iter_encode): the frames of every record carry that record's text in the caller's encoding
+        if size > 7:
+            try:
+                it_frames = list(codec.iter_encode(recs, enc, size, seq))
+                per_rec, k_ = [], 0
+                texts_ = b""
+                for f_ in it_frames:
+                    body = f_[2:-4]
+                    texts_ += body[:-1] if body.endswith(b"\x17") else body[:-2]
+                want_ = b"".join(codec.encode_record(rc_, enc) for rc_ in recs)
+                if texts_ != want_ or any(len(f_) > size for f_ in it_frames):
+                    oe.fail(dict(case, frames=[hexb(f_) for f_ in it_frames][:6]),
+                            "iter_encode: the frame texts do not concatenate to the records' texts in %s / a frame exceeds the limit" % enc,
+                            "other-encodings/iter-texts")
+            except Exception as e:  # noqa
+                oe.fail(dict(case, error=repr(e)[:100]), "iter_encode fails with size %d in %s" % (size, enc), "other-encodings/iter-raises")
         try:
             bad = check_frames(recs, size, seq, frames, whole, encoding=enc)
         except Exception as e:  # noqa
